@@ -447,7 +447,7 @@ func checkC19(p *load.Program, r *kit.Report) {
 			if kit.ReturnErrClass(ret) == kit.ErrNonNil {
 				continue
 			}
-			c := callOf(kit.RetOperand(ret, 0), 0)
+			c := listSourceCall(p, f, kit.RetOperand(ret, 0), 0)
 			var d *ssa.Function
 			if c != nil {
 				d = kit.StaticCallee(c)
@@ -467,9 +467,27 @@ func checkC19(p *load.Program, r *kit.Report) {
 	if f := fn(p, r, "DERIVED-STATE", H, "Repository.GetLocatorHashes"); f != nil {
 		allowed := map[string]bool{"longest": true, "branches": true, "splits": true, "requiredSplit": true, "Mutex": true, "genesisHash": true, "config": true}
 		derived := map[*types.Var]bool{}
+		// an address inside a Repository field that is not tree state
+		isOther := func(addr ssa.Value) bool {
+			for i := 0; i < 8; i++ {
+				fa, ok := addr.(*ssa.FieldAddr)
+				if !ok {
+					return false
+				}
+				fl, base := kit.FieldOfAddr(fa)
+				if kit.Strip(base) == ssa.Value(f.Params[0]) || kit.Root(base) == ssa.Value(f.Params[0]) && isRecvField(fa, f.Params[0]) {
+					return fl != nil && !allowed[fl.Name()]
+				}
+				addr = fa.X
+			}
+			return false
+		}
 		kit.AllInstrs(f, func(in ssa.Instruction) {
 			if fa, ok := in.(*ssa.FieldAddr); ok {
 				if fl, base := kit.FieldOfAddr(fa); fl != nil && kit.Root(base) == ssa.Value(f.Params[0]) && !allowed[fl.Name()] {
+					if diagnosticOnly(fa, isOther) {
+						return // counters and statistics: written, never used for the answer
+					}
 					derived[fl] = true
 				}
 			}
@@ -615,6 +633,17 @@ func dedupShape(p *load.Program, d *ssa.Function) string {
 		if !ok {
 			return false, false
 		}
+		// "nothing kept yet" as a nil previous-element cursor: the pointer that Equal is called on
+		if (b.Op == token.EQL || b.Op == token.NEQ) && kit.IsNilConst(b.Y) {
+			if ph, isPhi := b.X.(*ssa.Phi); isPhi {
+				for _, a := range call.Call.Args {
+					if kit.Strip(a) == ssa.Value(ph) {
+						return true, b.Op == token.EQL
+					}
+				}
+			}
+			return false, false
+		}
 		z, isC := kit.ConstInt(b.Y)
 		if !isC {
 			return false, false
@@ -723,4 +752,91 @@ func dedupShape(p *load.Program, d *ssa.Function) string {
 func isIntPhi(ph *ssa.Phi) bool {
 	b, ok := ph.Type().Underlying().(*types.Basic)
 	return ok && b.Info()&types.IsInteger != 0
+}
+
+
+// listSourceCall finds the call whose result a returned list is: the call itself, or — looking
+// through a defensive copy (`out := make(…); copy(out, src)`), a boolean-guarded memo field of the
+// repository (every store to the field in the package is followed) and phis — the single call all
+// of these lead to.
+func listSourceCall(p *load.Program, f *ssa.Function, v ssa.Value, depth int) *ssa.Call {
+	if depth > 6 {
+		return nil
+	}
+	if c := callOf(v, 0); c != nil && kit.StaticCallee(c) != nil {
+		return c
+	}
+	switch x := kit.Strip(v).(type) {
+	case *ssa.Call:
+		if kit.StaticCallee(x) != nil {
+			return x
+		}
+	case *ssa.MakeSlice:
+		var src ssa.Value
+		n := 0
+		for _, ref := range *x.Referrers() {
+			switch y := ref.(type) {
+			case *ssa.Call:
+				if kit.CallID(y) == "builtin.copy" && len(y.Call.Args) == 2 && y.Call.Args[0] == ssa.Value(x) {
+					src = y.Call.Args[1]
+					n++
+				}
+			case *ssa.IndexAddr:
+				return nil // filled element by element: not a copy of one source
+			}
+		}
+		if n == 1 {
+			return listSourceCall(p, f, src, depth+1)
+		}
+	case *ssa.Phi:
+		var only *ssa.Call
+		for _, e := range x.Edges {
+			if kit.IsNilConst(e) || e == ssa.Value(x) {
+				continue
+			}
+			c := listSourceCall(p, f, e, depth+1)
+			if c == nil || (only != nil && kit.StaticCallee(only) != kit.StaticCallee(c)) {
+				return nil
+			}
+			only = c
+		}
+		return only
+	case *ssa.UnOp:
+		if x.Op != token.MUL {
+			return nil
+		}
+		fa, ok := x.X.(*ssa.FieldAddr)
+		if !ok {
+			return nil
+		}
+		fld, _ := kit.FieldOfAddr(fa)
+		if fld == nil {
+			return nil
+		}
+		var only *ssa.Call
+		n := 0
+		for _, g := range pkgFuncs(p, H) {
+			for _, w := range kit.DirectWrites(g) {
+				if w.Field != fld || w.Kind != "store" {
+					continue
+				}
+				n++
+				c := listSourceCall(p, g, w.Val, depth+1)
+				if c == nil || (only != nil && kit.StaticCallee(only) != kit.StaticCallee(c)) {
+					return nil
+				}
+				only = c
+			}
+		}
+		if n > 0 {
+			return only
+		}
+	}
+	return nil
+}
+
+
+// isRecvField: fa addresses a field directly of the receiver object (not of a nested struct).
+func isRecvField(fa *ssa.FieldAddr, recv ssa.Value) bool {
+	return kit.Strip(fa.X) == recv
 }
